@@ -145,6 +145,57 @@ Definition K14 (d : doc) : bool := pv_fields d || negb (okd_fields false false d
 Definition k14_class (d : doc) : N :=
   if pv_fields d then 1%N else if negb (okd_fields false false d) then 2%N else 0%N.
 
+(* ---- tapes as the PARSER produces them.  TextDoc.flatten puts ONE MixedContainer marker into a list.  The real
+   parser (tape.rs) restores its own list mode, when a nested container closes, from the enclosing Array token's
+   `mixed` bit, and that bit is only set once a nested container has been entered whose text starts with a scalar:
+   after an EMPTY container value or one that starts with `{`, the next `key op` makes it insert a SECOND marker
+   (props/docgen.flatten mirrors this).  write_value(MixedContainer) then calls start_mixed_mode again: the flag is
+   back on.  [okp_*] is [okd_* false] with this marker rule in the key-value part: [pf] = the parser's bit. *)
+Definition sws (v : value) : bool :=
+  match v with
+  | VObject (FCons (Field _ _ _ _) _) _ => true
+  | VArray (VCons (VScalar _ _) _) => true
+  | VArrayKv (VCons (VScalar _ _) _) _ => true
+  | VArrayKv VNil (FCons _ _) => true
+  | _ => false
+  end.
+
+Fixpoint okp_value (dirty : bool) (v : value) : bool :=
+  match v with
+  | VScalar _ _ => true
+  | VObject fs _ => okp_fields dirty fs
+  | VArray items => okp_items dirty items
+  | VArrayKv items kvs => okp_items dirty items && okp_kvs false false kvs
+  | VHeader _ v => okp_value dirty v
+  end
+with okp_field (dirty : bool) (f : field) : bool :=
+  match f with
+  | Field _ _ op v => negb (dirty && op_written false op) && okp_value dirty v
+  | ParamV _ _ _ => true
+  | ParamO _ _ fs => okp_fields dirty fs
+  end
+with okp_fields (dirty : bool) (fs : fields) : bool :=
+  match fs with FNil => true | FCons f r => okp_field dirty f && okp_fields (da_field dirty f) r end
+with okp_items (dirty : bool) (vs : values) : bool :=
+  match vs with VNil => true | VCons v r => okp_value dirty v && okp_items (da_value dirty v) r end
+with okp_kvs (lost pf : bool) (kvs : fields) : bool :=
+  match kvs with
+  | FNil => true
+  | FCons f r =>
+      match f with
+      | Field _ _ _ v =>
+          okp_value (negb lost) v &&
+          (if is_scalar v then okp_kvs lost pf r
+           else let pf' := pf || sws v in okp_kvs pf' pf' r)   (* bit clear => marker re-inserted => flag on again *)
+      | _ => okp_kvs lost pf r
+      end
+  end.
+
+(* the class the C14 oracles use on tapes that come out of the real parser; equal to k14_class whenever the
+   parser inserts no second marker (every first container value of a list starts with a scalar) *)
+Definition k14p_class (d : doc) : N :=
+  if pv_fields d then 1%N else if negb (okp_fields false d) then 2%N else 0%N.
+
 (* C15 (call lists built by props/docgen.to_calls with explicit `=` calls possible): 2 = some operator CALL
    is made while dirty (calls-mixed-nested-op), 3 = the flag is lost for later entries of a list
    (calls-mixed-mode-lost: expecting_key() and the write_start resolution see an object), 0 = outside *)
